@@ -4,7 +4,7 @@ import json, subprocess, os
 D = os.path.dirname(os.path.abspath(__file__))
 BASE = "for m in gnark-plonky2-verifier; do (cd /repo/$m && GOFLAGS=-mod=mod go test -json -vet=off -count=1 -timeout 25m ./...); done"
 claimed = {
- "C01": ("structural necessary conditions only (level other): wiring of the entry points (must-call with the circuit's own fields), every input leaf bound (T2 leaf liveness generated from the types: each leaf reaches a must-executed constraint with full loop coverage or is observed by the transcript), plus the obligations of C11 C12 C13 C14 C16 C17 and C20's guards. Does not decide that the verification equations are the right polynomials.",
+ "C01": ("structural necessary conditions only (level other): wiring of the entry points (must-call with the circuit's own fields), every input leaf bound (T2 leaf liveness generated from the types: each leaf reaches a must-executed constraint with full loop coverage or is observed by the transcript), plus the obligations of C11 C12 C13 C14 C16 C17 and C20's guards. Does not decide that the verification equations are the right polynomials. Also: no hidden state — outside initialisers/constructors nothing writes package-level variables or chip fields (tabled exceptions), so nothing is carried from one circuit, proof or call to the next.",
          "E2 must-call + leaf-liveness over the SSA origin/dependency analysis", "§4 C01"),
  "C02": ("partial (level other): W3 alignment of every constant width reaching the range primitive and, for every common_circuit_data.json in the repository, of 64-ProofOfWorkBits; C06's dispatch/constructor obligations (no backend skips or mis-selects checks); W2 honest fit by a magnitude analysis of the gadget layer (abstract interpretation over upper bounds: every reduction input below p·2^n in every calling context, every MulAdd/Inverse operand canonical, no intermediate value reaches the BN254 field, upper-layer functions exchange canonical values only), for all configurations and proof shapes under the assumption that proof data and constants are canonical; the sponge keeps previous lanes on a partial chunk (97-input circuit). That the algebraic identities hold for honest proofs (acceptance itself) is not decided.",
          "interprocedural constant propagation of widths + enum-dispatch path analysis + abstract interpretation of magnitudes (intervals, constant propagation, Kleene iteration with widening)", "§4 C02 / §10.10"),
@@ -22,27 +22,27 @@ claimed = {
          "expression-shape matching + must-call + abstract interpretation of magnitudes", "§4 C08 / §10.10"),
  "C09": ("narrow structural clauses only (level other): inputs reduced first (full-range loop, only reduction results reach the sponge); permutation is a function (R1/W1 of the s-box reductions); sibling constant tables agree and are canonical; the sponge absorbs in overwrite mode and squeezes from the rate part only (loop bounded by SPONGE_RATE). Equality with plonky2 for all inputs is not decided.",
          "origin analysis + constant-table comparison from type-checked syntax", "§4 C09"),
- "C10": ("narrow structural clauses only (level other): the injectivity half of the property — limb packing in HashNoPad/HashOrNoop is Σ limb_k·base^k with constant base ≥ 2^64, exponent = limb index, bounded limb count with base^T ≤ r; ToVec chunks the canonical decomposition into consecutive disjoint ≤63-bit chunks; MulAcc accumulator discipline at every MulAcc site of the poseidon package (builder-independent results); a rate lane is overwritten only by a limb packed from a non-empty chunk (overwrite-mode absorption). Numeric agreement of the BN254 Poseidon permutation/sponge/shortcut with the reference PoseidonBN128 is NOT decided (no sound static argument in reach).",
+ "C10": ("narrow structural clauses only (level other): the injectivity half of the property — limb packing in HashNoPad/HashOrNoop is Σ limb_k·base^k with constant base ≥ 2^64, exponent = limb index, bounded limb count with base^T ≤ r; ToVec chunks the canonical decomposition into consecutive disjoint ≤63-bit chunks; MulAcc accumulator discipline at every MulAcc site of the poseidon package (builder-independent results); a rate lane is overwritten only by a limb packed from a non-empty chunk (overwrite-mode absorption). Numeric agreement of the BN254 Poseidon permutation/sponge/shortcut with the reference PoseidonBN128 is NOT decided (no sound static argument in reach). Also: no hidden state — outside initialisers/constructors nothing writes package-level variables or chip fields (tabled exceptions), so nothing is carried from one circuit, proof or call to the next.",
          "recurrence extraction from SSA phis + constant evaluation of package initialisers + slice-bound reasoning + ownership/liveness analysis of MulAcc accumulators", "§4 C10 / §10.6 / §10.8"),
  "C11": ("order + binding (level other): the observe/squeeze events of GetChallenges∘GetFriChallenges are totally ordered in plonky2's reference order, openings observed in content order, every transcript-bound leaf observed with full coverage, ObserveElement clears the output buffer, the challenger is never updated through a copy. The sponge arithmetic over arbitrary histories is not decided.",
          "event-sequence extraction over the SSA CFG (dominance order) + content-sequence analysis", "§4 C11"),
- "C12": ("presence / coverage / provenance (level other) of the Merkle equalities for initial and commit-phase trees, index-bit provenance, caps order. Left/right ordering and lookup arithmetic are test-pinned, not claimed.",
+ "C12": ("presence / coverage / provenance (level other) of the Merkle equalities for initial and commit-phase trees, index-bit provenance, caps order. Left/right ordering and lookup arithmetic are test-pinned, not claimed. Also: no hidden state — outside initialisers/constructors nothing writes package-level variables or chip fields (tabled exceptions), so nothing is carried from one circuit, proof or call to the next.",
          "must-execute + dependency + loop-coverage analysis", "§4 C12"),
- "C13": ("presence and coverage only (level other) of the fold-consistency and final-polynomial equalities (both coordinates), invertibility assertions and round coverage. Formulas are not decided.",
+ "C13": ("presence and coverage only (level other) of the fold-consistency and final-polynomial equalities (both coordinates), invertibility assertions and round coverage. Formulas are not decided. Also: no hidden state — outside initialisers/constructors nothing writes package-level variables or chip fields (tabled exceptions), so nothing is carried from one circuit, proof or call to the next.",
          "must-execute + dependency + loop-coverage analysis", "§4 C13"),
- "C14": ("strong structural claim (level other): must-executed range check of FriPowResponse with width 64-ProofOfWorkBits, dependent on PowWitness, live in every backend (C06), widths aligned (W3).",
+ "C14": ("strong structural claim (level other): must-executed range check of FriPowResponse with width 64-ProofOfWorkBits, dependent on PowWitness, live in every backend (C06), widths aligned (W3). Also: no hidden state — outside initialisers/constructors nothing writes package-level variables or chip fields (tabled exceptions), so nothing is carried from one circuit, proof or call to the next.",
          "must-execute + origin/width-expression analysis", "§4 C14"),
- "C15": ("narrow structural clauses only (level other): the selector-filtering and position-wise-sum half of the property, decided on the SSA of plonk/gates — every gate evaluated once with its own row, selectorIndices[i], groups[selectorIndices[i]] and NumSelectors(); results added position-wise into a zeroed, returned vector; the selector constant read before RemovePrefix, exactly numSelectors constants stripped before the gate sees them, every returned constraint multiplied by the filter; computeFilter = ∏(i−s) over [start,end) skipping exactly i = row, times (UNUSED_SELECTOR−s) iff several selector polynomials, UNUSED_SELECTOR = 2^32−1. Equality of each Gate.EvalUnfiltered body with plonky2's gate polynomial for all wire values and parameterisations is numeric and NOT decided.",
+ "C15": ("narrow structural clauses only (level other): the selector-filtering and position-wise-sum half of the property, decided on the SSA of plonk/gates — every gate evaluated once with its own row, selectorIndices[i], groups[selectorIndices[i]] and NumSelectors(); results added position-wise into a zeroed, returned vector; the selector constant read before RemovePrefix, exactly numSelectors constants stripped before the gate sees them, every returned constraint multiplied by the filter; computeFilter = ∏(i−s) over [start,end) skipping exactly i = row, times (UNUSED_SELECTOR−s) iff several selector polynomials, UNUSED_SELECTOR = 2^32−1. Equality of each Gate.EvalUnfiltered body with plonky2's gate polynomial for all wire values and parameterisations is numeric and NOT decided. Also: no hidden state — outside initialisers/constructors nothing writes package-level variables or chip fields (tabled exceptions), so nothing is carried from one circuit, proof or call to the next.",
          "SSA shape matching of the fold/map loops (counted-loop descriptors, must-execute, φ recurrences) + argument-role flow between caller and callee", "§5 C15 / §10.7"),
- "C16": ("presence and coverage only (level other) of the per-round extension equality and the L0 existence assertion, L0 evaluated uniformly, and the partial-product openings read through consecutive per-round windows of width NumPartialProducts (affine or cursor form). The products and quotient identities themselves are not decided.",
+ "C16": ("presence and coverage only (level other) of the per-round extension equality and the L0 existence assertion, L0 evaluated uniformly, and the partial-product openings read through consecutive per-round windows of width NumPartialProducts (affine or cursor form). The products and quotient identities themselves are not decided. Also: no hidden state — outside initialisers/constructors nothing writes package-level variables or chip fields (tabled exceptions), so nothing is carried from one circuit, proof or call to the next.",
          "must-execute + dependency + loop-coverage analysis + polynomial normalisation of slice bounds", "§4 C16"),
  "C17": ("strong structural claim (level other): T2 coverage generated from go/types — every Goldilocks-typed leaf of the proof (both coordinates) reaches the canonical range check itself, on every path, with full loop coverage; plus C06.",
          "type-generated field coverage + must-execute + loop-coverage analysis", "§4 C17"),
- "C18": ("strong structural claim (level other): language-level analysis of the gate regex registry (product/subset automata via regexp/syntax): each supported identifier template matches its own pattern and no other (independence of map order), no pattern matches an unimplemented gate template unless the handler refuses, the no-match exit panics, capture groups flow through checked strconv parses into the tabled constructor arguments, hiding is refused.",
+ "C18": ("strong structural claim (level other): language-level analysis of the gate regex registry (product/subset automata via regexp/syntax): each supported identifier template matches its own pattern and no other (independence of map order), no pattern matches an unimplemented gate template unless the handler refuses, the no-match exit panics, capture groups flow through checked strconv parses into the tabled constructor arguments, hiding is refused. Also: no hidden state — outside initialisers/constructors nothing writes package-level variables or chip fields (tabled exceptions), so nothing is carried from one circuit, proof or call to the next.",
          "regular-language disjointness (automata) + SSA parameter-flow analysis", "§4 C18"),
- "C19": ("partial (level other): every json.Unmarshal error is checked; raw decoder leaf types are uint64/string only; SetString uses base 10 with unmerged result; field-by-field copy completeness and position (full-range over the very list that is read at the loop's index, same index); raw 64-bit leaves are wrapped into variables as decoded (no intermediate computation). Value equality for arbitrary documents is not decided.",
+ "C19": ("partial (level other): every json.Unmarshal error is checked and decodes into a fresh local; no document string is handed to gnark unparsed; raw decoder leaf types are uint64/string only; SetString uses base 10 with unmerged result; field-by-field copy completeness and position (full-range over the very list that is read at the loop's index, same index); raw 64-bit leaves are wrapped into variables as decoded (no intermediate computation). Value equality for arbitrary documents is not decided.",
          "decoder-discipline lint over go/types + SSA copy-map analysis", "§4 C19"),
- "C20": ("guard presence (level other): the 20 shape refusals, keyed by the compared quantities, execute on every path for all elements of the list they validate. That a shape change not covered by a guard is rejected by the equations is not decided.",
+ "C20": ("guard presence (level other): the 20 shape refusals, keyed by the compared quantities, execute on every path for all elements of the list they validate. That a shape change not covered by a guard is rejected by the equations is not decided. Also: no hidden state — outside initialisers/constructors nothing writes package-level variables or chip fields (tabled exceptions), so nothing is carried from one circuit, proof or call to the next.",
          "T3 guard table over must-execute analysis", "§4 C20"),
 }
 not_applicable = {
